@@ -95,6 +95,7 @@ type Exec struct {
 	ctxSeq    int
 	bgCtx     *CtxV
 	timerFires int
+	arrObjs    map[*ArrayV]*Object
 
 	Sc           *Sched
 	PreemptBound int
@@ -658,8 +659,17 @@ func (e *Exec) exec(fr *frame, ins ssa.Instruction, prev *ssa.BasicBlock) (*ssa.
 		idx := e.concInt(e.get(fr, x.Index))
 		switch a := e.get(fr, x.X).(type) {
 		case *ArrayV:
+			if idx < 0 || idx >= len(a.E) {
+				panic(goPanic{msg: fmt.Sprintf("index out of range [%d] with length %d", idx, len(a.E))})
+			}
 			fr.env[x] = copyValue(a.E[idx])
 		case StrV:
+			if a.Sym != nil {
+				panic(unsupported{"index of a symbolic string"})
+			}
+			if idx < 0 || idx >= len(a.C) {
+				panic(goPanic{msg: fmt.Sprintf("index out of range [%d] with length %d", idx, len(a.C))})
+			}
 			fr.env[x] = IntV{T: e.P.BV(8, uint64(a.C[idx]))}
 		default:
 			panic(unsupported{fmt.Sprintf("Index on %T", a)})
@@ -808,10 +818,14 @@ func (e *Exec) exec(fr *frame, ins ssa.Instruction, prev *ssa.BasicBlock) (*ssa.
 
 func (e *Exec) concInt(v Value) int {
 	iv := v.(IntV)
+	c := iv.T.C
 	if !iv.T.IsConst() {
-		return int(sext(e.concretize(iv.T), iv.T.W))
+		c = e.concretize(iv.T)
 	}
-	return int(sext(iv.T.C, iv.T.W))
+	if iv.Signed {
+		return int(sext(c, iv.T.W))
+	}
+	return int(c & mask(iv.T.W))
 }
 
 // concretize enumerates the feasible values of t, forking per value (bounded).
@@ -892,7 +906,24 @@ func (e *Exec) slice(fr *frame, x *ssa.Slice) Value {
 			panic(goPanic{msg: "nil pointer dereference (slice)"})
 		}
 		if len(a.Path) != 0 {
-			panic(unsupported{"slice of nested array"})
+			// an array nested in a struct / array: wrap the very same ArrayV in an object of its own
+			v := a.Obj.V
+			for _, i := range a.Path {
+				v = child(v, i)
+			}
+			av, ok := v.(*ArrayV)
+			if !ok {
+				panic(unsupported{"slice of a nested non-array"})
+			}
+			if e.arrObjs == nil {
+				e.arrObjs = map[*ArrayV]*Object{}
+			}
+			o, ok := e.arrObjs[av]
+			if !ok {
+				o = e.newObj(av)
+				e.arrObjs[av] = o
+			}
+			a = PtrV{Obj: o}
 		}
 		n := len(a.Obj.V.(*ArrayV).E)
 		lo := opt(x.Low, 0)
